@@ -239,6 +239,20 @@ func (r *runner) exec() {
 	case c.Expo:
 		opts = append(opts, sdkmetric.WithView(sdkmetric.NewView(sdkmetric.Instrument{Name: "h"},
 			sdkmetric.Stream{Aggregation: sdkmetric.AggregationBase2ExponentialHistogram{MaxSize: c.MaxSize, MaxScale: c.MaxScale}})))
+	case c.RawView && !c.ViaOption:
+		shuffled := append([]float64{}, bounds...)
+		for i, j := range c.Shuffle {
+			a, b := i%len(shuffled), ((j%len(shuffled))+len(shuffled))%len(shuffled)
+			shuffled[a], shuffled[b] = shuffled[b], shuffled[a]
+		}
+		opts = append(opts, sdkmetric.WithView(func(in sdkmetric.Instrument) (sdkmetric.Stream, bool) {
+			if in.Name != "h" {
+				return sdkmetric.Stream{}, false
+			}
+			return sdkmetric.Stream{Name: in.Name, Description: in.Description, Unit: in.Unit,
+				Aggregation: sdkmetric.AggregationExplicitBucketHistogram{Boundaries: append([]float64{}, shuffled...)}}, true
+		}))
+		r.info.Class("boundaries_through_raw_view_function(shuffled)")
 	case !c.ViaOption:
 		opts = append(opts, sdkmetric.WithView(sdkmetric.NewView(sdkmetric.Instrument{Name: "h"},
 			sdkmetric.Stream{Aggregation: sdkmetric.AggregationExplicitBucketHistogram{Boundaries: append([]float64{}, bounds...)}})))
